@@ -14,7 +14,8 @@ PROPERTY = 'C12'
 LEVEL = 'model_checking'
 
 SIZES = [2, 3, 0, 5]
-COHORTS = {'A': [0], 'B': [1], 'AB': [0, 1], 'AC': [0, 2], 'BA': [1, 0], 'DB': [3, 1], 'C': [2]}
+# ABA: a cohort sampled with replacement (client A listed twice, every occurrence trains and is weighted)
+COHORTS = {'A': [0], 'B': [1], 'AB': [0, 1], 'AC': [0, 2], 'BA': [1, 0], 'DB': [3, 1], 'C': [2], 'ABA': [0, 1, 0]}
 BATCHING = {'b2e1': (2, 1, None, 0), 'b3e2': (3, 2, None, 1), 'b1s1': (1, None, 1, 0)}
 
 
@@ -55,8 +56,10 @@ def pair(case):
     a, ia = systems.build('hyp_cluster', **bk, clusters=1, copt=co, sopt='mom', lr_c=lr, lr_s=0.5, loss='plain', hp=hp)
     b, ib = systems.build('fed_avg', **bk, copt=co, sopt='mom', lr_c=lr, lr_s=0.5, loss='plain', hp=hp)
     return plain(a), ia, plain(b), ib, (lambda st: st.cluster_params[0]), P
-  if kind == 'mimelite_sgd':
-    a, ia = systems.build('mime_lite', **bk, base='sgd', lr=lr, server_lr=1.0, loss='rng', hp=hp)
+  if kind in ('mimelite_sgd', 'mimelite_sgd_clip'):
+    # _clip: a clipping bound that never binds (1e6) leaves the reduction intact - also with empty clients in the cohort
+    ck = {'clip': 1e6} if kind.endswith('_clip') else {}
+    a, ia = systems.build('mime_lite', **bk, base='sgd', lr=lr, server_lr=1.0, loss='rng', hp=hp, **ck)
     b, ib = systems.build('fed_avg', **bk, copt='sgd', sopt='sgd', lr_c=lr, lr_s=1.0, loss='rng', hp=hp)
     return plain(a), ia, plain(b), ib, P, P
   if kind == 'apfl_global':
@@ -169,9 +172,9 @@ def plan(ctx):
   th = ctx.tier == 'thorough'
   depth = 4 if th else 2
   ctx.rule = ('pairs {FedProx(0)=FedAvg, FedProx(mu in {0.5,2})=FedAvg on the loss + proximal penalty, HypCluster(1)=FedAvg, '
-              'MimeLite(SGD, server lr 1)=FedAvg(SGD,SGD(1)), APFL global=FedAvg, Mime(SGD, 1 step)=full-batch gradient step} x '
+              'MimeLite(SGD, server lr 1, with and without a non-binding clip)=FedAvg(SGD,SGD(1)), APFL global=FedAvg, Mime(SGD, 1 step)=full-batch gradient step} x '
               'learning rate {1/8,1/2} x batching {(2,1 epoch),(3,2 epochs),(1,num_steps=1)} x every cohort history up to depth '
-              '%d over 7 cohorts of population (2,3,0,5); compared after every round' % depth)
+              '%d over 8 cohorts (one listing a client twice) of population (2,3,0,5); compared after every round' % depth)
   ctx.assumptions += ['both sides are real fedjax algorithms except the Mime reduction (float64 full-batch gradient step)',
                       'the FedProx(mu>0) counterpart is a fresh FedAvg instance per round closed over that round\'s server '
                       'parameters (histories of depth <= 2 for this pair)']
@@ -182,6 +185,7 @@ def plan(ctx):
         if not th and (lr, b) not in ((0.125, 'b2e1'), (0.5, 'b3e2'), (0.125, 'b1s1')):
           continue
         cs.append({'pair': p, 'lr': lr, 'batching': b, 'depth': depth, 'seed': ctx.seed})
+  cs.append({'pair': 'mimelite_sgd_clip', 'lr': 0.125, 'batching': 'b2e1', 'depth': depth, 'seed': ctx.seed})
   for p in ('fedprox0', 'hyp1', 'apfl_global'):
     for co in ('mom', 'adam') if th else ('mom',):
       for lr, b in ((0.125, 'b3e2'), (0.5, 'b2e1')) if th else ((0.125, 'b3e2'),):
